@@ -148,6 +148,7 @@ type c11Scenario struct {
 	purpose purposeKind
 	entry   string
 	lazy    bool // single non-root certificate: choices drawn on contact (full table)
+	hang    bool // every responder stays silent until the OCSP client's own timeout ends the request; the CRL fetcher's client has none
 	bound   int
 	once    sync.Once
 	w       *revWorld
@@ -180,6 +181,13 @@ func c11Scenarios(tier mc.Tier) []mc.Scenario {
 				}
 			}
 		}
+	}
+	// (a') responders that never answer: each OCSP request ends when the OCSP client's own timeout expires (whenever that is: nothing
+	// here depends on how long it takes); that time budget belongs to the OCSP client and must not eat into the CRL fallback
+	for _, oc := range [][2]int{{1, 1}, {2, 1}, {1, 2}} {
+		s := &c11Scenario{n: 2, o: []int{oc[0]}, c: []int{oc[1]}, purpose: purposeCS, entry: "validate", lazy: true, hang: true, bound: -1}
+		out = append(out, mc.Scenario{Name: fmt.Sprintf("C11-silent-responders-o%d-c%d-validate", oc[0], oc[1]), Bound: -1, Body: s.body,
+			Params: map[string]string{"chain": "2", "responders": fmt.Sprint(oc[0]), "distributionPoints": fmt.Sprint(oc[1]), "ocspClientTimeout": "100ms", "entry": "validate"}})
 	}
 	// (b) longer chains, bounded deviations from (Good, clean)
 	bound := 2
@@ -241,6 +249,11 @@ func (s *c11Scenario) body(c *mc.Ctx) {
 			key := src.String()
 			if !drawn[key] {
 				drawn[key] = true
+				if src.kind == "ocsp" && s.hang {
+					ocspCls[src.cert][src.idx] = 3 // an error for the decision table
+					<-raw.Context().Done()       // silent until the library's side gives up
+					return netsim.Answer{Err: raw.Context().Err()}
+				}
 				if src.kind == "ocsp" {
 					n := len(ocspClassNames)
 					if s.entry == "validate" {
@@ -282,7 +295,11 @@ func (s *c11Scenario) body(c *mc.Ctx) {
 		if e != nil {
 			panic(mc.HarnessError{Msg: e.Error()})
 		}
-		v, e := revocation.NewWithOptions(revocation.Options{OCSPHTTPClient: tr.Client(), CRLFetcher: f, CertChainPurpose: rp})
+		oc := tr.Client()
+		if s.hang {
+			oc.Timeout = 100 * time.Millisecond // the CRL fetcher above keeps its own client, without a timeout
+		}
+		v, e := revocation.NewWithOptions(revocation.Options{OCSPHTTPClient: oc, CRLFetcher: f, CertChainPurpose: rp})
 		if e != nil {
 			panic(mc.HarnessError{Msg: e.Error()})
 		}
